@@ -168,6 +168,36 @@ theorem no_absorbing_state_down (cfg : Config) (hc : WFCfg cfg) (ops : List Op) 
   obtain ⟨cont, hnf, hgone, _⟩ := no_absorbing_state cfg hc (ops ++ [.start []]) k hup hk'
   exact ⟨cont, hnf, hgone⟩
 
+/-- **C30 (6c)** the same from *every* reachable state, whatever the manager's mode — running, closed
+(`Close()` returned and the process lives on: pending rows sit in channel buffers nobody reads), or down:
+one process exit and restart, then a continuation without faults, after which the task has been executed
+successfully.  No reachable state is absorbing. -/
+theorem no_absorbing_state_any_mode (cfg : Config) (hc : WFCfg cfg) (ops : List Op) (k : Key)
+    (hk : stored ((sys cfg).run ops) k) :
+    ∃ cont : List Op, (∀ o ∈ cont, NoFault o) ∧
+      ¬ stored ((sys cfg).run (ops ++ [.crash, .start []] ++ cont ++ [.finish k true])) k := by
+  have hstep : ∀ (s : State) (o : Op), stored s k → (∀ p, o ≠ .finish k true ∨ placeOf s.own k ≠ some (.running p)) →
+      (∀ inv, o = .start inv → k ∉ inv) → stored (step s o) k := by
+    intro s o h h1 h2
+    apply Classical.byContradiction
+    intro hl
+    rcases step_keys_lost s o k h hl with ⟨rfl, p, hp⟩ | ⟨inv, rfl, hin, _⟩
+    · rcases h1 p with h | h
+      · exact h rfl
+      · exact h hp
+    · exact h2 inv rfl hin
+  have hk1 : stored (step ((sys cfg).run ops) .crash) k :=
+    hstep _ _ hk (fun p => Or.inl (by simp)) (by intro inv h; cases h)
+  have hk2 : stored (step (step ((sys cfg).run ops) .crash) (.start [])) k :=
+    hstep _ _ hk1 (fun p => Or.inl (by simp)) (by intro inv h; injection h with h; subst h; simp)
+  have hrun : (sys cfg).run (ops ++ [.crash, .start []]) = step (step ((sys cfg).run ops) .crash) (.start []) := by
+    simp [Sys.run, sys, List.foldl_append]
+  have hup : ((sys cfg).run (ops ++ [.crash, .start []])).mode = .up := by
+    rw [hrun]
+    cases hm : ((sys cfg).run ops).mode <;> simp [step, stepO, hm]
+  obtain ⟨cont, hnf, hgone, _⟩ := no_absorbing_state cfg hc (ops ++ [.crash, .start []]) k hup (by rw [hrun]; exact hk2)
+  exact ⟨cont, hnf, hgone⟩
+
 /-- **C30 (7) the fairness-conditioned eventuality**, for every infinite schedule continuing any
 history that leaves the manager running: if from then on the environment is quiet (no crash, close
 or restart; no new tasks; executions succeed; no channel overflows — `FairQuiet.quiet`) and the
@@ -218,6 +248,11 @@ example : ((sys demoCfg).run demo).rows.map (fun r => (r.key, r.status, r.failur
     [(2, .pending, 1), (3, .failed, 2)] := by decide
 example : ((sys demoCfg).run (demo.take 7)).rows.map (·.status) = [.pending, .pending, .failed] := by decide
 example : stored ((sys demoCfg).run demo) 2 ∧ ¬ stored ((sys demoCfg).run demo) 1 := by decide
+
+-- a closed manager in a live process holding a pending row in a channel nobody reads (6c applies)
+example : ((sys demoCfg).run [.addBegin 1 0 [], .addEnq 1, .close]).mode = .closing ∧
+    ((sys demoCfg).run [.addBegin 1 0 [], .addEnq 1, .close]).rows.map (·.status) = [.pending] ∧
+    stored ((sys demoCfg).run [.addBegin 1 0 [], .addEnq 1, .close]) 1 := by decide
 
 -- non-vacuity of the fairness theorem's hypotheses: a stored failed task and a concrete round-robin
 -- schedule (advance, fetch, examine, send, take, take, finish) that is fair and quiet
